@@ -662,6 +662,7 @@ func (c *converter) Group(value string, valueUsed bool) (string, error) {
 func (c *converter) FuncCall(name string, args []string, returnTypes []parser.ValueType, valueUsed bool) ([]string, error) {
 	returnValues := []string{}
 	c.callFunc(name, args)
+	c.addLine(`if "!_e!" neq "0" goto :end`) // "exit /B" of a panic only leaves the called function, therefore the error is passed on to the caller.
 
 	if valueUsed {
 		for i := range returnTypes {
